@@ -84,6 +84,7 @@ type typeRefTarget struct {
 }
 
 type genCtx struct {
+	pathVarRefs bool // REST path variables may be typed by type references (IntentOpts.PathVarRefs)
 	apps    []*App
 	types   map[string][]string // app key -> raw type names
 	appKeys []string
@@ -290,12 +291,13 @@ type IntentOpts struct {
 	Mixins     bool // single-level mixins of ~abstract apps
 	Subs       bool // subscriptions 'Src -> Ev' to events of applications declared earlier
 	Collectors bool // '.. * <- *' blocks merging attributes into endpoints and call statements
+	PathVarRefs bool // REST path variables typed by a bare local type name or App.Type
 }
 
 func GenIntent(t *rapid.T) *Intent { return GenIntentOpt(t, IntentOpts{}) }
 
 func GenIntentOpt(t *rapid.T, opts IntentOpts) *Intent {
-	in := genIntentBase(t)
+	in := genIntentBase(t, opts)
 	g := &genCtx{apps: in.Apps}
 	if opts.Mixins && len(in.Apps) >= 2 {
 		// the mixed-in application has no mixins of its own (chains depend on post-processing
@@ -415,8 +417,8 @@ func isMixedIn(in *Intent, a *App) bool {
 	return false
 }
 
-func genIntentBase(t *rapid.T) *Intent {
-	g := &genCtx{types: map[string][]string{}}
+func genIntentBase(t *rapid.T, opts IntentOpts) *Intent {
+	g := &genCtx{types: map[string][]string{}, pathVarRefs: opts.PathVarRefs}
 	na := rapid.IntRange(1, 4).Draw(t, "napps")
 	usedApp := map[string]bool{}
 	for i := 0; i < na; i++ {
@@ -608,6 +610,36 @@ func (g *genCtx) genRest(t *rapid.T, a *App, depth int, usedSeg map[string]bool,
 		e := TExpr{Prim: "INT", spelling: "int"}
 		if rapid.Bool().Draw(t, "pvstr") {
 			e = TExpr{Prim: "STRING", spelling: "string"}
+		}
+		if g.pathVarRefs && rapid.IntRange(0, 2).Draw(t, "pvref") == 0 {
+			// a path variable typed by a type: bare name of a type of this application, or App.Type
+			plain := func(names []string) []string {
+				var out []string
+				for _, nm := range names {
+					if !strings.ContainsAny(nm, "%-") {
+						out = append(out, nm)
+					}
+				}
+				return out
+			}
+			if own := plain(g.types[appKey(a.Name)]); len(own) > 0 && rapid.Bool().Draw(t, "pvbare") {
+				tn := pick(t, own, "pvbaretype")
+				e = TExpr{RefPath: []string{tn}, spelling: tn}
+			} else {
+				var cands [][2]string
+				for _, o := range g.apps {
+					if len(o.Name) != 1 {
+						continue
+					}
+					for _, tn := range plain(g.types[appKey(o.Name)]) {
+						cands = append(cands, [2]string{o.Name[0], tn})
+					}
+				}
+				if len(cands) > 0 {
+					c := pick(t, cands, "pvdotted")
+					e = TExpr{RefPath: []string{c[0], c[1]}, spelling: c[0] + "." + c[1]}
+				}
+			}
 		}
 		n.PathVar = &Param{Name: nm, T: e}
 		n.Seg = "/{" + nm + "<:" + e.spelling + "}"
